@@ -188,6 +188,59 @@ def shard(method, seed, tier, sweep=False):
     return sh
 
 
+def uninit_shard(method, seed, tier):
+    """Uninitialised-memory differential.  The same (stream, declared length, schedule) cases are decoded by two processes that
+    differ in one thing only: the byte with which the stack region about to be used, and every fresh heap block, was filled
+    beforehand (0x00 / 0xA5).  If an output differs, an uninitialised byte decided it - and then no reference, single maximal read
+    or otherwise, is a function of the stream, which is what every clause of the statement presupposes.  Streams: every cut of
+    valid streams (commands cut in the middle), bit flips, hostile tables, random bytes."""
+    sh = core.Shard()
+    rnd = random.Random(seed)
+    cases = []
+    from . import c09
+    from ..lhamodel import lhnew
+    for rep in range(3 if tier == 'quick' else 20):
+        s, p, _ = streams.valid_stream(rnd, method, rnd.choice([4, 30, 200]))
+        cuts = range(1, len(s)) if len(s) <= 80 else sorted(set([len(s) - 1, len(s) - 2, len(s) - 3] + [rnd.randrange(1, len(s)) for _ in range(40)]))
+        for cut in cuts:
+            for fl in (0, dech.F_DIRECT):       # through lha_decoder_read, and with the decoder type's callbacks driven directly (shallower stack)
+                cases.append(dech.Case(method, s[:cut], len(p) + rnd.choice([0, 0, 50]), sched=[rnd.choice([1, 7, 4096])], flags=fl,
+                                       max_total=len(p) + 100, meta='cut'))
+        b = bytearray(s)
+        for _ in range(rnd.choice([1, 2, 6])):
+            if b:
+                b[rnd.randrange(len(b))] ^= 1 << rnd.randrange(8)
+        cases.append(dech.Case(method, bytes(b), len(p) + 20, sched=[4096], max_total=len(p) + 100, meta='bitflip'))
+        cases.append(dech.Case(method, bytes(rnd.randrange(256) for _ in range(rnd.choice([1, 2, 3, 9, 200]))), 3000, sched=[4096], max_total=3000, meta='random'))
+        if method in lhnew.METHODS:
+            cases.append(dech.Case(method, c09.hostile_lhnew(rnd, method), 3000, sched=[4096], max_total=3000, meta='hostile-tables'))
+        elif method == '-pm2-':
+            cases.append(dech.Case(method, c09.hostile_pm2(rnd), 3000, sched=[4096], max_total=3000, meta='hostile-tables'))
+    runs = []
+    for fill in (0x00, 0xa5):
+        crashed = []
+        res = dech.run_batch(_EXE, cases, sh, label='c14u%02x' % fill, on_crash=lambda c, cls, key, err: crashed.append(c.id), env_extra=dech.fill_env(fill))
+        runs.append((res, set(crashed)))
+    for c in cases:
+        sh.evaluated(method.encode() + c.stream + repr((c.declared, c.sched, c.flags)).encode() + b'uninit', nontrivial=len(c.stream) > 1)
+        sh.hist('uninit_differential_cases', c.meta)
+        a, b_ = runs[0][0].get(c.id), runs[1][0].get(c.id)
+        if a is None or b_ is None or c.id in runs[0][1] or c.id in runs[1][1]:
+            continue                # a crash is C09's business; nothing to compare
+        if (a.out, a.total, a.status, a.len_rep, a.crc_rep) != (b_.out, b_.total, b_.status, b_.len_rep, b_.crc_rep):
+            k = next((i for i in range(min(len(a.out), len(b_.out))) if a.out[i] != b_.out[i]), min(len(a.out), len(b_.out)))
+            sh.violation('C14-output-decided-by-uninitialised-memory:%s' % method,
+                         '%s, %s stream of %d bytes, declared %d, schedule %s: decoded twice, with stack and fresh heap blocks pre-filled with 0x00 and with 0xA5 - '
+                         '%d vs %d bytes returned, first difference at byte %d (%s vs %s): an uninitialised byte decides the output, so it is not a function of the stream'
+                         % (method, c.meta, len(c.stream), c.declared, c.sched, a.total, b_.total, k, a.out[k:k + 4].hex(), b_.out[k:k + 4].hex()), c.stream)
+    sh.count('uninit_differential_pairs', len(cases))
+    return sh
+
+
+def _dispatch14(kind, *a):
+    return uninit_shard(*a) if kind == 'uninit' else shard(*a)
+
+
 def run(ctx):
     global _EXE
     b = build.Builder()
@@ -196,8 +249,9 @@ def run(ctx):
     reps = 4 if ctx.tier == 'quick' else 40
     for mi, m in enumerate(streams.ALL_METHODS):
         for r in range(reps):
-            args.append((m, ctx.seed * 4001 + mi * 17 + r, ctx.tier, r == 0))
-    core.run_shards(ctx, shard, args)
+            args.append(('main', m, ctx.seed * 4001 + mi * 17 + r, ctx.tier, r == 0))
+        args.append(('uninit', m, ctx.seed * 577 + mi, ctx.tier))
+    core.run_shards(ctx, _dispatch14, args)
     ctx.cov['rule'] = ('(method, stream, declared length, read schedule, monitor attach point) tuples over all 14 method names; streams: '
                        'valid (from the serialisers), truncated (random cut, plus a sweep over every cut of one stream per method), '
                        'bit-flipped, random, empty; declared lengths of 2^32 .. 2^40 on streams that denote far less; the reference is ONE maximal lha_decoder_read call, the schedules carry on until a '
